@@ -400,12 +400,49 @@ def handlePair (shape : String) (ts obs : List String) : String × String :=
       | _, _ => "fail:unparsable-observation"
     (model, v)
 
+/-! ### `gen.<j>`: a GENERATED client against a GENERATED server (settings made through the
+generated builder methods).  Small and self-contained on purpose: the expectation is written
+directly from the property text over the four configured sets. -/
+
+def encNameOfChar (c : Char) : Option String :=
+  if c = 'g' then some "gzip" else if c = 'd' then some "deflate" else if c = 'z' then some "zstd" else none
+
+def genCalls (s : String) : List Char := s.toList.filter (· ≠ '-')
+
+/-- canonical order in which tonic lists / examines encodings -/
+def canon : List Char := ['g', 'd', 'z']
+
+def handleGen (j : String) (ts obs : List String) : String × String :=
+  match ts with
+  | [csnd, cacc, sacc, ssnd, _n] =>
+    let send : Option Char := (genCalls csnd).getLast?
+    -- advertised in the order the encodings were enabled (repeats ignored)
+    let cAcc := (genCalls cacc).eraseDups
+    let sAcc := genCalls sacc
+    let sSnd := genCalls ssnd
+    let nReq := if j = "4" ∨ j = "5" then 2 else 1
+    let nResp := if j = "3" ∨ j = "5" then 2 else 1
+    let name := fun (c : Option Char) => (c.bind encNameOfChar).getD "-"
+    let qe := name send
+    let qa := if cAcc.isEmpty then "-" else String.intercalate "," ((cAcc.filterMap encNameOfChar) ++ ["identity"])
+    let qf := String.ofList (List.replicate nReq (if send.isSome then '1' else '0'))
+    let refused : Bool := match send with | some e => !(sAcc.contains e) | none => false
+    let chosen : Option Char := cAcc.find? (fun c => sSnd.contains c)
+    let expected :=
+      if refused then s!"qe={qe} qa={qa} qf={qf} re=- rf=- out=err12"
+      else
+        let rf := String.ofList (List.replicate nResp (if chosen.isSome then '1' else '0'))
+        s!"qe={qe} qa={qa} qf={qf} re={name chosen} rf={rf} out=ok"
+    (expected, verdict [("generated-code-hands-the-compression-settings-on", String.intercalate " " obs == expected)])
+  | _ => bad
+
 def handle (case obs : List String) : String × String :=
   match case with
   | k :: ts =>
     if k.startsWith "srv." then handleSrv (k.drop 4).toString ts obs
     else if k.startsWith "cli." then handleCli (k.drop 4).toString ts obs
     else if k.startsWith "pair." then handlePair (k.drop 5).toString ts obs
+    else if k.startsWith "gen." then handleGen (k.drop 4).toString ts obs
     else bad
   | _ => bad
 
